@@ -307,8 +307,8 @@ func genBandChol(g *vlib.G) {
 		}
 		for _, k := range ks {
 			for v := 0; v < variants(g); v++ {
-				for _, rep := range []string{"symband", "usersymband", "notpd"} {
-					if n > 8 && (rep != "symband" || v > 0) {
+				for _, rep := range []string{"symband", "symband-strided", "usersymband", "userrawsymband", "notpd", "notpd-strided"} {
+					if n > 8 && ((rep != "symband" && rep != "symband-strided") || v > 0) {
 						continue
 					}
 					n, k, v, rep := n, k, variantID(g, v), rep
@@ -328,22 +328,22 @@ func genBandChol(g *vlib.G) {
 
 func bandCholCase(t *vlib.T, n, k, v int, rep string, cfg solveCfg) {
 	A := bandSPD(n, k, v)
-	notpd := rep == "notpd"
+	notpd := rep == "notpd" || rep == "notpd-strided"
 	if notpd {
 		// flip the last diagonal entry: the last pivot becomes negative
 		A.set(n-1, n-1, -A.at(n-1, n-1))
 	}
-	var a mat.SymBanded
-	if rep == "usersymband" {
-		a = userSymBand{A.clone(), k}
-	} else {
-		sb := mat.NewSymBandDense(n, k, nil)
-		for i := 0; i < n; i++ {
-			for j := i; j < n && j <= i+k; j++ {
-				sb.SetSymBand(i, j, A.at(i, j))
-			}
-		}
-		a = sb
+	brep := rep
+	switch rep {
+	case "notpd":
+		brep = "symband"
+	case "notpd-strided":
+		brep = "symband-strided"
+	}
+	a := symBandRep(brep, A, k)
+	if maxAbs(subM(fromMat(a), A)) != 0 {
+		t.Failf("harness: band representation %s does not read back", rep)
+		return
 	}
 	var ch mat.BandCholesky
 	if (n+v)%2 == 0 {
@@ -355,6 +355,9 @@ func bandCholCase(t *vlib.T, n, k, v int, rep string, cfg solveCfg) {
 	}
 	ok := ch.Factorize(a)
 	t.Nontrivial()
+	if maxAbs(subM(fromMat(a), A)) != 0 {
+		t.Failf("Factorize modified its argument")
+	}
 	if notpd {
 		t.Outcome("not-pd")
 		if ok {
